@@ -160,8 +160,10 @@ func (loop *EventLoop) setImmediate(call goja.FunctionCall) goja.Value {
 			args = append(args, call.Arguments[1:]...)
 		}
 		f := func() { fn(nil, args...) }
-		loop.jobCount++
-		return loop.vm.ToValue(loop.addImmediate(f))
+		if i := loop.addImmediate(f); i != nil {
+			loop.jobCount++
+			return loop.vm.ToValue(i)
+		}
 	}
 	return nil
 }
@@ -432,9 +434,11 @@ func (loop *EventLoop) addImmediate(f func()) *Immediate {
 	i := &Immediate{
 		job: job{fn: f},
 	}
-	loop.addAuxJob(func() {
+	if !loop.addAuxJob(func() {
 		loop.doImmediate(i)
-	})
+	}) {
+		return nil
+	}
 	return i
 }
 
